@@ -1165,7 +1165,16 @@ func main() {
 	emit(1, corpusBoundary(f.Out, meta), "corpus")
 	emit(2, corpusGCPending(f.Out, meta), "corpus")
 	emit(3, corpusInMemory(f.Out, meta), "corpus")
+	only := map[int]bool{} // C48_ONLY=i,j,...: generate just these histories (debugging / replay)
+	for _, x := range strings.Split(os.Getenv("C48_ONLY"), ",") {
+		if v, err := strconv.Atoi(strings.TrimSpace(x)); err == nil {
+			only[v] = true
+		}
+	}
 	for i := 4; i < n+4; i++ {
+		if len(only) > 0 && !only[i] {
+			continue
+		}
 		emit(i, runCase(f.Out, meta, f.Seed, i), "history")
 	}
 	cf.Flush()
